@@ -38,6 +38,10 @@ type Sched struct {
 	dead    bool // after Kill: every gate blocks for ever, no events recorded
 }
 
+// Live, if set, sees every event the moment it is recorded (used by isolated driver children, whose
+// process may die before the step's events are drained).
+var Live func(Ev)
+
 func New() *Sched {
 	s := &Sched{
 		threads: map[int64]string{}, parked: map[string]*parked{}, done: map[string]bool{},
@@ -80,6 +84,9 @@ func (s *Sched) Thread() string {
 func (s *Sched) Emit(e Ev) {
 	s.mu.Lock()
 	if !s.dead {
+		if Live != nil {
+			Live(e)
+		}
 		s.evs = append(s.evs, e)
 		s.version++
 		s.cond.Broadcast()
